@@ -201,6 +201,12 @@ def scenario(draw):
             # (it has read locals and is about to open virtualdomains): the last HUP still follows the last edit, so the last edit applies
             c3 = draw(controls_strategy())
             sc["hup2"] = {k: c3[k] for k in ("locals", "virtualdomains") if k in c3}
+        elif draw(st.integers(0, 1)) == 0:
+            # a successful HUP, another edit of locals, then a HUP whose re-read of control/virtualdomains FAILS (the file is a directory for
+            # that moment): the daemon keeps working with tables that correspond to control files it has read - the ones in force before the
+            # failed attempt - never with something in between or with garbage (added after seeded change C10-I)
+            c3 = draw(controls_strategy())
+            sc["hupfail"] = {"locals": c3.get("locals", "zz.example\n")}
     return sc
 
 
@@ -248,6 +254,8 @@ def run_one(w, sc, stats):
     w.extra_env = {}
     if "hup2" in sc:
         w.extra_env = {"VSHIM_PAUSE": "send.qmail-send|control/virtualdomains|1"}     # occurrence 0 is the start-up read
+    if "hupfail" in sc:
+        w.extra_env = {"VSHIM_PAUSE": "send.qmail-send|control/virtualdomains|2"}     # the re-read after the SECOND HUP
     try:
         w.start()
         ev = w.wait_event()
@@ -285,6 +293,29 @@ def run_one(w, sc, stats):
                     ev = w.wait_event()
             if ev[0] != "Q":
                 return "daemon stopped after HUP: %r" % (ev,), nt
+            alt_final = None
+            if "hupfail" in sc:
+                w.h.control("locals", sc["hupfail"]["locals"])
+                w.signal(signal.SIGHUP)
+                ev = w.wait_event()
+                if ev[0] == "I":
+                    ev = w.wait_event()
+                if ev[0] != "P":
+                    return "the daemon did not re-read control/virtualdomains after the second HUP (event %r)" % (ev[:1],), nt
+                vp = os.path.join(w.h.dir, "control", "virtualdomains")
+                keep = open(vp, "rb").read() if os.path.isfile(vp) else None
+                if keep is not None:
+                    os.unlink(vp)
+                os.mkdir(vp)                       # open() succeeds, read() fails with EISDIR: "unable to reread control/virtualdomains"
+                w.resume()
+                ev = w.wait_event()
+                os.rmdir(vp)
+                if keep is not None:
+                    open(vp, "wb").write(keep)
+                if ev[0] != "Q":
+                    return "daemon stopped after a HUP whose re-read failed: %r" % (ev,), nt
+                stats.cls("hup_with_failing_reread")
+                alt_final = dict(final, locals=sc["hupfail"]["locals"])
             rc, n2 = w.inject(L(sc["sender"]), [L(r) for r in sc["rcpts2"]], b"Subject: y\n\nb\n")
             w.resume()
             ev = w.wait_event()
@@ -299,6 +330,14 @@ def run_one(w, sc, stats):
                     c2.pop(k, None)
             cfg2 = cfg_of(c2)
             v, nt2 = observe(w, n2, [L(r) for r in sc["rcpts2"]], L(sc["sender"]), cfg2, stats, "message after HUP")
+            if v and alt_final is not None:
+                # the failed re-read had already taken in the new locals file: that reading is accepted as well
+                c3_ = dict(c2)
+                c3_["locals"] = alt_final["locals"]
+                v_alt, _ = observe(w, n2, [L(r) for r in sc["rcpts2"]], L(sc["sender"]), cfg_of(c3_), stats, "message after HUP")
+                if v_alt is None:
+                    v = None
+                    stats.slack += 1
             # the first message keeps its classification
             v1, _ = observe(w, n, [L(r) for r in sc["rcpts"]], L(sc["sender"]), cfg, stats, "first message after HUP")
             stats.cls("with_hup")
